@@ -148,9 +148,11 @@ def cases(tier, cfg, seed):
         out.append(ItMixed(T, 4, 6, 3, 'it_int')); out.append(ItMixed(T, 4, 6, 3, 'int_it'))
         for op in OPS:
             for kind in (('tensor', 'scalar') if tier == 'quick' else ('tensor', 'scalar', 'expr')):
+                if T in IT and op == '/=' and kind == 'expr': continue      # integer divisor b+c can be 0 / -1 although b and c are not
                 out.append(ItWrite(T, (9,), 4, op, kind))
             out.append(ItWrite(T, (4, 5), 3, op, 'tensor'))
             for kind in (('tensor', 'scalar') if tier == 'quick' else ('tensor', 'scalar', 'expr')):
+                if T in IT and op == '/=' and kind == 'expr': continue
                 out.append(MaskWrite(T, (7,) if tier == 'quick' else (9,), op, kind))
         out.append(MaskMask(T, 5, '=')); out.append(MaskMask(T, 5, '+='))
         out.append(MaskWrite(T, (3, 3), '=', 'tensor')); out.append(MaskWrite(T, (2, 2, 2), '+=', 'scalar'))
